@@ -555,7 +555,7 @@ func c11RunStreams(r *verifkit.Run, m c11Matrix, n int, rp *c11StreamWitness) {
 			if src >= 0 && c11Violations == before {
 				r.Count("stream_frames_for_acks0_produce", 1)
 				p := items[src]
-				c11Viol(r, "reply_frame_for_acks0_produce:Produce",
+				c11Viol(r, "reply_stream_shifted_by_frame_for_acks0_produce:Produce",
 					fmt.Sprintf("%s: Produce v%d with acks=0 (request %d of a stream on one connection; by protocol it has no reply; partitions: %s) was answered with a %d-byte frame carrying its correlation id %d; a client reads that frame as the reply to the next request, so %s v%d (correlation id %d) receives a reply with a foreign correlation id and body, and every later reply on the connection is shifted by one",
 						target, p.cs.Version, src, strings.Join(p.kinds, ","), out.n, out.got, dueAPI, dueVer, dueCorr),
 					c11StreamWitnessOf(target, pipelined, items, out, seen))
